@@ -77,6 +77,7 @@ func registerAll() {
 	reg("L15", "dedup-key completeness: the key under which the slab encoder shares an extra-data entry between inlined containers is a function of the encoded type information and of every field-name list handed in (data dependence through package callees, every non-empty-list return)", ruleL15)
 	reg("L16", "established sizes carry the encoded prefix: every literal, absolute assignment and computed size function starts from the prefix constant of the object's kind and state (data slabs: root / non-root / inlined per getPrefixSize; one constant for every other kind; list literals add their per-entry constant)", ruleL16)
 	reg("K2", "entry counts: element.Count of a collision group is its own element list's Count, of a single element 1; elements.Count is the length of the receiver's element slice (the collision limit counts entries through these)", ruleK2)
+	reg("X7", "decoded objects own their storage: no slice, map or pointer reachable by loads alone from the slab's shared inlined extra data is stored into a freshly decoded slab, element list or extra data", ruleX7)
 	reg("I2", "iterator cursor advance: every exit of a Next/next method that hands out an element is preceded on all paths by a write of the iterator's cursor state (own field, nested iterator, or delegation to its own Next)", ruleI2)
 	reg("I3", "range validation: the range iterator constructors reject start > end and bounds beyond the count", ruleI3)
 
@@ -167,7 +168,7 @@ func registerAll() {
 	}
 	propTable["C08"] = &PropSpec{
 		ID:    "C08",
-		Rules: []string{"R1", "S3", "S7", "S8", "S9", "L2", "L11"},
+		Rules: []string{"R1", "S3", "S7", "S8", "S9", "L2", "L11", "X7"},
 		Explanation: "a slab served from the read cache (or decoded) that is then mutated re-enters the write set because every mutation ends in a store of that object on every success path; commit moves the very same object from the write set into the cache (nil after a deletion) and only on the success edge; apart from that only DecodeSlab results under the same id enter the cache, controlled by the cache flag; lookups consult write set, cache, ledger in that order and a hit returns the found entry; observers cannot reach a writer of the write set.",
 		NotDecided: "equality of decoded and original content (C07) and the compact-map reload exception; byte-identity under all schedules.",
 		Technique:  "typestate over slab objects + field-write ownership + dominance of lookups",
